@@ -294,7 +294,8 @@ def stepBackend (st : SuiteState) (toks : List String) : SuiteState × String :=
     if st.b.retryQ.isEmpty then (st, "retry none") else ({ st with b := doRetry c st.b f }, "retry ok")
   | ["rev"] => (st, s!"rev {st.b.committed}")
   | ["setrev", r] =>
-    ({ st with b := { st.b with committed := atou r, dealt := max st.b.dealt (atou r) } }, "setrev ok")
+    -- tso.Commit: the committed revision is only ever raised (compare-and-swap loop), the deal cursor follows it up
+    ({ st with b := { st.b with committed := max st.b.committed (atou r), dealt := max st.b.dealt (atou r) } }, "setrev ok")
   | ["iterfault", n] =>
     -- transient (no from=/notfrom=): retried by the worker, invisible in the answer. Persistent on one side of a
     -- partitioning: that partition's worker exhausts its retries, the whole read answers with an error
